@@ -94,6 +94,43 @@ func one(k kase) *fail {
 		if want != got {
 			return &fail{k, fmt.Sprint("selected=", want), fmt.Sprint("selected=", got)}
 		}
+	case "entry":
+		// the constrained source is the entry itself (Eval, Compile + Execute, EvalPath on the file): when the toolchain
+		// selects it, it runs; when it does not, nothing of it runs and the host survives (an error is acceptable)
+		src := k.Src + "package main\n\nimport . \"verif/engine/twin/h\"\n\nfunc main() { Show(\"ran\") }\n"
+		var buf bytes.Buffer
+		mfs := fstest.MapFS{"gp/src/m/entry.go": &fstest.MapFile{Data: []byte(src)}}
+		i := newInterp(k.Tags, mfs, &buf)
+		want, merr := modelMatch(i.VerifContext(), "entry.go", src)
+		if merr != nil {
+			return &fail{k, "MODEL-ERROR " + merr.Error(), ""}
+		}
+		var err error
+		func() {
+			defer func() {
+				if r := recover(); r != nil {
+					err = fmt.Errorf("HOSTPANIC: %v", r)
+				}
+			}()
+			switch k.Name {
+			case "eval":
+				_, err = i.Eval(src)
+			case "compile":
+				var p *interp.Program
+				if p, err = i.Compile(src); err == nil {
+					_, err = i.Execute(p)
+				}
+			case "evalpath":
+				_, err = i.EvalPath("gp/src/m/entry.go")
+			}
+		}()
+		got := fmt.Sprintf("ran=%v", strings.Contains(buf.String(), "ran"))
+		if err != nil && (want || strings.HasPrefix(err.Error(), "HOSTPANIC")) {
+			got += " error: " + strings.SplitN(err.Error(), "\n", 2)[0]
+		}
+		if w := fmt.Sprintf("ran=%v", want); w != got {
+			return &fail{k, w, got}
+		}
 	case "e2e":
 		var buf bytes.Buffer
 		mfs := fstest.MapFS{}
@@ -350,6 +387,13 @@ func main() {
 	ks = append(ks, headerCases(r.Thorough())...)
 	nHeaders := len(ks) - nNames
 	ks = append(ks, e2eCases(ctx.GOOS, ctx.GOARCH)...)
+	for _, hd := range []string{"", "//go:build " + ctx.GOOS + "\n\n", "//go:build !" + ctx.GOOS + "\n\n", "//go:build ignore\n\n", "// +build windows,!" + ctx.GOOS + "\n\n", "// +build " + ctx.GOOS + "\n\n", "//go:build a\n\n", "//go:build go1.99\n\n"} {
+		for _, mode := range []string{"eval", "compile", "evalpath"} {
+			for _, tags := range [][]string{nil, {"a"}} {
+				ks = append(ks, kase{Kind: "entry", Name: mode, Src: hd, Tags: tags, Class: fmt.Sprintf("entry %s header=%q", mode, strings.TrimSpace(hd))})
+			}
+		}
+	}
 	res := par.Map(len(ks), func(i int) *fail { return one(ks[i]) }, par.Opts{})
 	for _, f := range res.Outs {
 		if strings.HasPrefix(f.Model, "MODEL-ERROR") {
@@ -380,7 +424,7 @@ func main() {
 	r.Set("headers_without_model_answer", res.Counts["model_rejects_header"])
 	r.Set("distinct_nontrivial", len(res.Sets["name_answers"])+len(res.Sets["header_answers"])+len(res.Sets["e2e_answers"]))
 	r.Set("exhaustive", true)
-	r.Set("rule", "names: every word of go/build's OS and architecture lists + unix + unknown words in the last one and two _ positions (and with a third leading word), with and without _test, _/. prefixes, loading with and without tests; headers: all boolean expressions of depth <= 2 over literals of 15 atoms in //go:build and // +build syntax (or / and / two lines), both syntaxes together, yaegi:tags, 8 placements before and 6 after the package clause, x tag sets over {a,b}; e2e: packages on a MapFS loaded by EvalPath. distinct_nontrivial = distinct model answers observed per dimension (true/false, file sets)")
+	r.Set("rule", "names: every word of go/build's OS and architecture lists + unix + unknown words in the last one and two _ positions (and with a third leading word), with and without _test, _/. prefixes, loading with and without tests; headers: all boolean expressions of depth <= 2 over literals of 15 atoms in //go:build and // +build syntax (or / and / two lines), both syntaxes together, yaegi:tags, 8 placements before and 6 after the package clause, x tag sets over {a,b}; e2e: packages on a MapFS loaded by EvalPath; entry: the constrained source as the entry itself through Eval, Compile + Execute and EvalPath on the file (8 headers x 2 tag sets). distinct_nontrivial = distinct model answers observed per dimension (true/false, file sets)")
 	r.Assumptions = []string{"go/build.Context.MatchFile on a copy of the interpreter's own build context is the reference", "headers that go/build itself reports as malformed have no model answer and are skipped (counted)"}
 	for _, i := range []int{3, nNames + 5, len(ks) - 1} {
 		r.Sample(ks[i])
